@@ -26,6 +26,11 @@ use std::rc::Rc;
 
 pub trait Source {
     fn next(&mut self, sim: &Sim) -> Option<Ev>;
+    /// true when the source may contain `NewWorld` markers (an explicit list): a dead world then
+    /// only skips to the next marker instead of ending the execution
+    fn may_restart(&self) -> bool {
+        false
+    }
 }
 
 pub struct ListSource<'a> {
@@ -38,6 +43,9 @@ impl<'a> Source for ListSource<'a> {
         let e = self.evs.get(self.i).cloned();
         self.i += 1;
         e
+    }
+    fn may_restart(&self) -> bool {
+        true
     }
 }
 
@@ -472,12 +480,21 @@ fn skip(sim: &mut Sim, ev: &Ev, why: &'static str) {
 
 /// Top-level driver: pulls events until the source is exhausted or the world is dead.
 pub fn drive(sim: &mut Sim, src: &mut dyn Source, rec: &mut Vec<Ev>) {
-    while !sim.dead {
+    loop {
+        if sim.dead && !src.may_restart() {
+            break;
+        }
         let ev = match src.next(sim) {
             Some(e) => e,
             None => break,
         };
         rec.push(ev.clone());
+        if sim.dead && !matches!(ev, Ev::NewWorld { .. }) {
+            // the world died (a pass panicked): skip until the next world starts
+            sim.status_log.push(3);
+            sim.event_index += 1;
+            continue;
+        }
         match &ev {
             Ev::NewWorld { smooth } => {
                 let mut cfg = sim.cfg.clone();
